@@ -18,7 +18,7 @@ RULE = (
     "distinct_nontrivial = distinct (workload, cache configuration, instance shape, event-log hash) among runs in which at least one cached value was served or stored"
 )
 FAULT_KEYS = ["cache_flush", "cache_growth", "cache_created", "adversarial_choice", "row_permute", "exchange_accepted", "swap_unequal_reads", "swap_q_more_reads_than_p"]
-PROBE_KEYS = ["cached_calls_checked", "cache_hit", "cache_miss", "cache_set", "cache_flush", "cache_growth", "trajectory_pairs", "call_cached_calls",
+PROBE_KEYS = ["keystress_lookups", "keystress_power_of_two_pairs", "cached_calls_checked", "cache_hit", "cache_miss", "cache_set", "cache_flush", "cache_growth", "trajectory_pairs", "call_cached_calls",
               "ped_cached_calls", "cache_entries_audited", "swap_q_more_reads_than_p", "exchange_accepted"]
 OPTIONAL_PROBES = {"quick": (), "thorough": ()}
 COMPONENTS = {
@@ -49,6 +49,9 @@ def prepare(tier):
 
 
 def gen_config(rng, tier, index=0):
+    if rng.random() < 0.04:
+        return {"workload": "keystress", "ploidy": rng.choice([4, 6, 8]), "n_haps": rng.choice([60, 130, 200]), "data_seed": rng.randrange(2 ** 31),
+                "n_samples": rng.choice([2, 3]), "queries": rng.randint(20, 60)}
     w = rng.choice(["assemble", "assemble", "assemble", "call", "pedigree", "pedigree"])
     if w == "assemble":
         cfg = wl_assemble.gen_config(rng, tier, "cache")
@@ -67,9 +70,75 @@ def gen_config(rng, tier, index=0):
     return cfg
 
 
+def run_keystress(ctx):
+    """Adversarial lookup histories for the dict-backed caches (pedigree: keyed per sample; call: per genotype):
+    large genotype spaces, several samples with different reads, and lookups whose genotype indices differ by
+    powers of two - the histories under which a non-injective (packed / truncated) key serves one genotype's
+    likelihood for another.  Every served value is compared with the uncached likelihood."""
+    import math
+    import random as _random
+    cfg = ctx.config
+    m = bootstrap()
+    np = m["np"]
+    rng = _random.Random(cfg["data_seed"])
+    pl, nh, ns = cfg["ploidy"], cfg["n_haps"], cfg["n_samples"]
+    n_pos = 8
+    haps = set()
+    while len(haps) < nh:
+        haps.add(tuple(rng.randrange(2) for _ in range(n_pos)))
+    haps = np.array(sorted(haps), dtype=np.int8)
+    reads, counts = [], []
+    for s_ in range(ns):
+        r = np.zeros((2, n_pos, 2))
+        for k in range(2):
+            for j in range(n_pos):
+                a = rng.randrange(2)
+                p = rng.choice([0.7, 0.9, 0.99])
+                r[k, j, :] = 1 - p
+                r[k, j, a] = p
+        reads.append(r)
+        counts.append(np.array([rng.choice([1, 2, 3]), rng.choice([1, 2])], dtype=np.int64))
+    total = math.comb(nh + pl - 1, pl)
+    to_g = m["jitutils"].index_as_genotype_alleles
+    fresh = lambda s_, g: float(m["likelihood"].log_likelihood(reads[s_], haps[g], read_counts=counts[s_]))
+    ped_cached = m["plikelihood"].log_likelihood_alleles_cached
+    call_cached = m["clikelihood"].log_likelihood_alleles_cached
+    ped_cache = {(-1, -1): float("nan")}
+    call_caches = [{-1: float("nan")} for _ in range(ns)]
+    queries = []
+    for _ in range(cfg["queries"]):
+        i = ctx.tape.int(0, total - 1)
+        s_ = ctx.tape.int(0, ns - 1)
+        queries.append((s_, i))
+        w = [8, 16, 24, 31, 32, 33, 40][ctx.tape.int(0, 6)]
+        j = i + (1 << w) if i + (1 << w) < total else i - (1 << w)
+        if 0 <= j < total:
+            queries.append(((s_ + 1) % ns if ctx.tape.chance(0.7) else s_, j))
+            ctx.counters.inc("keystress_power_of_two_pairs")
+    for rnd in range(2):
+        for s_, i in (queries if rnd == 0 else reversed(queries)):
+            g = np.array(to_g(int(i), pl), dtype=np.int64)
+            want = fresh(s_, g)
+            got = float(ped_cached(reads[s_], counts[s_], haps, s_, g, ped_cache))
+            ctx.counters.inc("keystress_lookups")
+            if not rel_close(got, want):
+                raise Violation("cached_value_wrong", "pedigree llk cache served %r for (sample %d, genotype index %d), recomputed %r" % (got, s_, i, want),
+                                step=ctx.step, detail={"sample": s_, "genotype_index": int(i), "ploidy": pl, "n_haps": nh})
+            got = float(call_cached(reads[s_], counts[s_], haps, g, call_caches[s_]))
+            if not rel_close(got, want):
+                raise Violation("cached_value_wrong", "call llk cache served %r for genotype index %d, recomputed %r" % (got, i, want),
+                                step=ctx.step, detail={"genotype_index": int(i), "ploidy": pl, "n_haps": nh})
+    ctx.log.add("keystress", pl, nh, len(queries))
+    ctx.key("keystress", pl, nh, ns, ctx.log.sha())
+    ctx.counters.inc("call_cached_calls", len(queries))
+    ctx.counters.inc("ped_cached_calls", len(queries))
+
+
 def execute(ctx):
     cfg = ctx.config
     w = cfg["workload"]
+    if w == "keystress":
+        return run_keystress(ctx)
     if w == "assemble":
         sim = wl_assemble.AssembleSim(ctx, cfg, checks=("cache",))
         sim.run()
@@ -113,6 +182,8 @@ def sut_exception_is_violation(e, ctx):
 
 def shrink_candidates(cfg, violation):
     w = cfg["workload"]
+    if w == "keystress":
+        return [dict(cfg, queries=max(1, cfg["queries"] // 2))] if cfg["queries"] > 1 else []
     if w == "assemble":
         out = []
         for c in wl_assemble.shrink_candidates(cfg, violation):
